@@ -65,6 +65,8 @@ def check(model: Model, run: Run) -> None:
                        "treating BEFORE_OPEN and OPENED alike and under the property's precondition that responses match their request kind. "
                        "This is a necessary condition of interoperability only; joint histories and delivery schedules are not decided")
     common_coverage(ex, run)
+    from .c07 import exit_does_not_swallow
+    exit_does_not_swallow(model, run)
     # every octet sent is received exactly once: the receive loops test the reader itself for "octets left"
     from ..readerrules import lemma_reader_truth
     lemma_reader_truth(model, run)
